@@ -52,8 +52,8 @@ from wgverif import env  # noqa: F401
 
 PROPERTY = "C20"
 RULE = ("rows: every row of both shipped tables in blocks (all rows in both tiers) with "
-        "seeded evaluation points inside every table interval (quick: 2, thorough: 8 per "
-        "interval); direct: seeded arguments in [-60,3000] dense near 0, near every "
+        "seeded evaluation points inside every table interval (quick: 2, 1 for x<0; thorough: 8 "
+        "per interval); direct: seeded arguments in [-60,3000] dense near 0, near every "
         "threshold -(k pi)^2 and both table ends; beyond: 16 mode pairs x {b,f}; pot: random "
         "particle content (1-5 boson and 0-4 fermion species, dof 1-24, T over 5 decades, "
         "scalar and array T) x integral source {direct, shipped table with a mode pair, "
@@ -62,7 +62,7 @@ RULE = ("rows: every row of both shipped tables in blocks (all rows in both tier
         "hash / (scenario, source, option, content hash)).")
 ASSUMPTIONS = [
     "principal branch: sqrt continued from the upper half plane, principal logarithm "
-    "(what integrals.py documents); mpmath 30-digit tanh-sinh quadrature split at the "
+    "(what integrals.py documents); mpmath 20-digit tanh-sinh quadrature split at the "
     "logarithmic singularities, cross-validated against the Bessel series and the values at 0",
     "accuracy of direct integrals and rows is judged against quad's own termination "
     "criterion (abs/rel 1.49e-8) times 10, not against relative accuracy at large x "
@@ -75,12 +75,12 @@ CASE_TIMEOUT = 600
 CHUNK = 1
 EXHAUSTIVE = {"quick": False, "thorough": False}
 FLOORS = {
-    # quick, seed 0 on the unchanged tree: row_* 40000, spline_* 79992, direct_vs_ref 5008,
+    # quick, seed 0 on the unchanged tree: row_* 40000, spline_* 79212, direct_vs_ref 5008,
     # envelope 1626, direct_derivative 216, beyond_eval 896, pot_assembly 277, pot_args 554,
     # pot_continuity 256, pot_stefan_boltzmann/pot_heavy/pot_cw 24, pot_global_state 16
     "quick": {"distinct_nontrivial": 300,
               "mon": {"oracle_selfcheck": 1, "row_vs_ref": 40000, "row_direct_vs_ref": 40000,
-                      "spline_value": 79000, "spline_derivative": 79000,
+                      "spline_value": 78000, "spline_derivative": 78000,
                       "direct_vs_ref": 3500, "known_zero": 4, "envelope": 1000,
                       "direct_derivative": 100, "beyond_eval": 600, "table_meta": 2,
                       "pot_assembly": 150, "pot_stefan_boltzmann": 15, "pot_heavy": 15,
@@ -90,7 +90,7 @@ FLOORS = {
                       "beyond": 32, "pot:massless": 20, "pot:heavy": 20, "pot:cont0": 28,
                       "pot:contEnd": 16, "pot:cw": 20, "pot:global": 6, "pot:random": 40,
                       "tablemeta": 2, "oracle-selfcheck": 1}},
-    "thorough": {"distinct_nontrivial": 2500,
+    "thorough": {"distinct_nontrivial": 2300,
                  "mon": {"oracle_selfcheck": 1, "row_vs_ref": 40000,
                          "row_direct_vs_ref": 40000, "spline_value": 300000,
                          "spline_derivative": 300000, "direct_vs_ref": 30000,
@@ -248,7 +248,7 @@ def generate(tier, seed):
     for kind in "bf":
         for i0 in range(0, n_neg, NEG_BLOCK):
             cases.append({"kind": "rows", "J": kind, "i0": i0,
-                          "i1": min(n_neg, i0 + NEG_BLOCK), "npts": npts,
+                          "i1": min(n_neg, i0 + NEG_BLOCK), "npts": 1 if quick else npts,
                           "s": int(rng.integers(1 << 30))})
     # --- direct integrals, negative arguments
     thr = sorted({-(k * math.pi) ** 2 for k in range(1, 3)})
@@ -416,9 +416,14 @@ def _case_rows(case):
         S, j0, j1, nodevals = local_ref_spline(kind, X, ia, ib)
         noderes = np.abs(V[j0:j1 + 1] - nodevals)
         nodebad = np.any(noderes > tq(nodevals), axis=1)
-        ts = [np.full(ib - ia, 0.5), np.full(ib - ia, 0.2113248654)]
-        for _ in range(case["npts"] - 2):
-            ts.append(rng.uniform(0.0, 1.0, size=ib - ia))
+        # t = 1/2 maximises the value error of a cubic spline on smooth data, t = 0.2113 its
+        # derivative error; one seeded point per interval for the (mpmath) quick blocks
+        if case["npts"] == 1:
+            ts = [rng.uniform(0.15, 0.85, size=ib - ia)]
+        else:
+            ts = [np.full(ib - ia, 0.5), np.full(ib - ia, 0.2113248654)]
+            for _ in range(case["npts"] - 2):
+                ts.append(rng.uniform(0.0, 1.0, size=ib - ia))
         h = X[ia + 1:ib + 1] - X[ia:ib]
         for t in ts:
             xt = X[ia:ib] + t * h
@@ -1055,7 +1060,7 @@ def _pot_inner(case):
                 x[idx] = rng.uniform(lo_x, 0.0)
             return x
         negB = rng.random() < 0.5
-        negF = rng.random() < 0.15
+        negF = rng.random() < 0.35
         xb, xf = draw(nb, negB), draw(nf, negF)
         t2 = (Ta ** 2)[..., None] if shape else Ta ** 2
         got = thermal(pot, rec, xb * t2, xf * t2, T)
